@@ -83,6 +83,11 @@ CLAIMED["C17"] = dict(
     note="Trusted: Lean kernel; ZlibLaws about zlib (self-tested each run, exit 2 if zlib differs); memory use is runtime behaviour the model cannot exhibit: bounded by construction and measured (partial in that respect).",
     technique="Lean 4 proof (bound outright, exactness under a stated zlib contract) + differential + boundary sweep",
     design="7/C17")
+CLAIMED["C09"] = dict(
+    text="Lean 4: c09_decode_sound_jws/jwe — decode returns only if the transport (C01/C02 soundness applies) accepted and json.loads of the verified payload is a JSON object; c09_not_object — non-JSON or non-object payloads are InvalidPayloadError; c09_header_default_typ / c09_header_members — the encoded header is {typ: JWT, **header} with an explicit typ overriding, every given member kept (pure function of the caller's header); c09_roundtrip_jws — under the C03 laws and the JSON law, decode(encode(header, claims, sk), pk) = ({typ:JWT, **header}, claims) for every header object and claims object; numericDate model of calendar.timegm(utctimetuple()). Tie: encode/decode round trips over JWS (all families) and JWE transports with generated claim trees, datetimes with/without tzinfo, key/key set/callable; non-object payload panel under valid signatures/encryption; tamper-before-payload order; Lean decode vs joserfc; numericDate vs calendar.timegm on a 1900-2200 grid.",
+    note="Trusted: Lean kernel; model checked by differential; JSON and signature laws as in C03. The civil-date formula is compared with calendar.timegm on a grid (support), not proved against a day-count recursion; the JWE round trip is decided by the differential.",
+    technique="Lean 4 proof (soundness + round trip under stated laws) + differential",
+    design="7/C09")
 PENDING = {}
 
 
